@@ -125,6 +125,55 @@ Proof.
 Qed.
 End P2S.
 
+(* ---- round 5: EVERY entry of the returned list.  Entry j of the list returned by a PARAFAC2 run of n iterations is the error of
+   the iterate RETURNED by the run cut after j+1 iterations (same oracle, same start) - line-search iterations (accepted or rejected
+   jump) and ordinary ones alike; a convergence stop only shortens the list. *)
+Section P2all.
+Variables (St E : Type) (err : St -> E) (Or : p2oracle St) (ls normalize : bool).
+Hypothesis Hnorm : forall st, err (p2_norm Or st) = err st.
+(* the iterate an iteration ends with *)
+Definition p2_next (it : nat) (cur : St) : St :=
+  let line := ls && Nat.even it && (5 <? it) in
+  let upd := p2_update Or it cur in
+  let st := if line && p2_accept Or it then p2_jump Or it cur upd else upd in
+  if normalize then p2_norm Or st else st.
+Lemma p2_loop_step n it cur errs :
+  p2_loop err Or ls normalize false (S n) it cur errs =
+  if p2_stop Or it then (p2_next it cur, errs ++ [err (p2_next it cur)])
+  else p2_loop err Or ls normalize false n (S it) (p2_next it cur) (errs ++ [err (p2_next it cur)]).
+Proof.
+  cbn [p2_loop]. unfold p2_next.
+  destruct (ls && Nat.even it && (5 <? it)); cbn [andb]; destruct normalize; rewrite ?Hnorm; reflexivity.
+Qed.
+Lemma p2_loop_extends : forall n it cur errs, exists tl, snd (p2_loop err Or ls normalize false n it cur errs) = errs ++ tl.
+Proof.
+  induction n as [|n IH]; intros it cur errs; [exists []; cbn; now rewrite app_nil_r|].
+  rewrite p2_loop_step. destruct (p2_stop Or it); [cbn; eexists; reflexivity|].
+  destruct (IH (S it) (p2_next it cur) (errs ++ [err (p2_next it cur)])) as [tl Htl]. rewrite Htl, <- app_assoc. eexists; reflexivity.
+Qed.
+Lemma p2_loop_entry : forall n it cur errs j, length errs <= j -> j < length (snd (p2_loop err Or ls normalize false n it cur errs)) ->
+  nth_error (snd (p2_loop err Or ls normalize false n it cur errs)) j
+  = Some (err (fst (p2_loop err Or ls normalize false (S j - length errs) it cur errs))).
+Proof.
+  induction n as [|n IH]; intros it cur errs j Hlo Hhi; [cbn in Hhi; lia|].
+  replace (S j - length errs) with (S (j - length errs)) by lia.
+  rewrite !p2_loop_step in *. destruct (p2_stop Or it).
+  - cbn [fst snd] in *. rewrite app_length in Hhi; cbn in Hhi. assert (j = length errs) by lia; subst j.
+    rewrite nth_error_app2, Nat.sub_diag by lia. reflexivity.
+  - destruct (Nat.eq_dec j (length errs)) as [-> | Hne].
+    + rewrite Nat.sub_diag. cbn [p2_loop fst].
+      destruct (p2_loop_extends n (S it) (p2_next it cur) (errs ++ [err (p2_next it cur)])) as [tl Htl]. rewrite Htl, <- app_assoc.
+      rewrite nth_error_app2, Nat.sub_diag by lia. reflexivity.
+    + assert (Hlo' : length (errs ++ [err (p2_next it cur)]) <= j) by (rewrite app_length; cbn [length]; lia).
+      rewrite (IH (S it) (p2_next it cur) (errs ++ [err (p2_next it cur)]) j Hlo' Hhi).
+      rewrite app_length. cbn [length]. replace (S j - (length errs + 1)) with (j - length errs) by lia. reflexivity.
+Qed.
+Theorem p2_loop_every_entry n init j : j < length (snd (p2_loop err Or ls normalize false n 0 init [])) ->
+  nth_error (snd (p2_loop err Or ls normalize false n 0 init [])) j
+  = Some (err (fst (p2_loop err Or ls normalize false (S j) 0 init []))).
+Proof. intros H. rewrite (p2_loop_entry n 0 init [] j); [now rewrite Nat.sub_0_r | cbn; lia | exact H]. Qed.
+End P2all.
+
 (* the behaviour before fix 0080ddd (legacy = true) reports, after 7 iterations, the error of the iterate of iteration 6
    although it returns the iterate of iteration 7 *)
 Definition toy_p2 : p2oracle nat := mkP2 (fun _ st => S st) (fun _ _ st => st + 100) (fun _ => false) (fun st => st) (fun _ => false).
